@@ -969,17 +969,14 @@ func throughBlockStream(r *hx.Rng) []Desc {
 // judged against the reference field.  `all` = both thicknesses for every (constructor, strength); otherwise they
 // alternate.  `smallDomains` also generates the parameter ranges for which the constructor declares a domain that
 // does not contain the shape (Sphere with strength < 1, VarryingThicknessLine with strength < radius).
-func constructorStream(r *hx.Rng, all, smallDomains bool) []Desc {
+func constructorStream(r *hx.Rng, all, smallDomains bool, seed int) []Desc {
 	out := []Desc{}
 	kinds := []string{"sphere", "box", "line", "multiline", "vline", "subtract", "mirror", "translate", "combine"}
-	n := r.Intn(2)
-	for _, kind := range kinds {
-		for _, strength := range []float64{0.5, 1, 2, 10} {
-			n++
+	for ki, kind := range kinds {
+		for si, strength := range []float64{0.5, 1, 2, 10} {
 			for thick := 0; thick < 2; thick++ {
-				if !all && n%2 != thick {
-					continue
-				}
+				// quick: one (strength, thickness) per constructor, rotating with the seed
+				keep := all || (si == (ki+seed)%4 && thick == (ki+seed/4)%2)
 				cpu := hx.Pick(r, []float64{2, 3, 4, 5, 8})
 				if strength == 10 {
 					cpu = hx.Pick(r, []float64{2, 3, 4}) // Box pads its domain by `strength` world units
@@ -1039,7 +1036,7 @@ func constructorStream(r *hx.Rng, all, smallDomains bool) []Desc {
 					d.Mode = "combine"
 					d.Shapes = []Shape{{Kind: "multiline", Pts: poly, R: rad, S: strength}, {Kind: "box", P: poly[1], Q: [3]float64{2 * rad, 2 * rad, 2 * rad}, S: strength}}
 				}
-				if small && !smallDomains {
+				if (small && !smallDomains) || !keep {
 					continue
 				}
 				th := "thin"
@@ -1073,14 +1070,12 @@ func constructorStream(r *hx.Rng, all, smallDomains bool) []Desc {
 // Unions judged against the independent reference field: two or three members that overlap, are nested or are
 // disjoint, at cutoff 0, half a cell and one and a half cells below zero, through CombineFields and through one
 // AddField per member (18 cases, all well inside one block).
-func unionStream(r *hx.Rng, all bool) []Desc {
+func unionStream(r *hx.Rng, all bool, seed int) []Desc {
 	out := []Desc{}
-	for _, layout := range []string{"overlapping", "nested", "disjoint"} {
+	for li, layout := range []string{"overlapping", "nested", "disjoint"} {
 		for ci, depth := range []float64{0, 0.5, 1.5} {
-			for _, mode := range []string{"combine", "add"} {
-				if !all && mode == "add" && ci == 1 {
-					continue
-				}
+			for mi, mode := range []string{"combine", "add"} {
+				keep := all || (li+ci+mi+seed)%3 == 0
 				cpu := hx.Pick(r, []float64{4, 5, 8, 10, 12.5, 16})
 				var c [3]float64
 				for k := 0; k < 3; k++ {
@@ -1111,6 +1106,9 @@ func unionStream(r *hx.Rng, all bool) []Desc {
 				}
 				if (ci+len(out))%2 == 1 {
 					shapes[0], shapes[1] = shapes[1], shapes[0]
+				}
+				if !keep {
+					continue
 				}
 				out = append(out, Desc{Cpu: cpu, Cutoff: -depth / cpu, Mode: mode, Shapes: shapes, Parallel: r.Chance(1, 4),
 					Note: fmt.Sprintf("%s members, cutoff %.1f cells below zero", layout, depth)})
@@ -1525,6 +1523,10 @@ func main() {
 	for i, sh := range sheets {
 		cpu := hx.Pick(r, cpus)
 		for _, k0 := range []int{0, 8} {
+			// quick: all 256 patterns inside a block, one half (rotating with the seed) at each block face
+			if run.Tier != "thorough" && i > 0 && k0 != 8*((i+int(run.Seed))%2) {
+				continue
+			}
 			d := sheetLattice(sh.thin, sh.org, cpu, r, k0)
 			d.Parallel = i == 3
 			j := newJob("cell-patterns", d)
@@ -1537,20 +1539,27 @@ func main() {
 	jobs = append(jobs, newJob("shapes", Desc{Cpu: 10, Mode: "add", Shapes: []Shape{{Kind: "sphere", P: [3]float64{0, 0, 0}, R: 0.5, S: 1}}}))
 	jobs = append(jobs, newJob("shapes", Desc{Cpu: 8, Mode: "add", Parallel: true, Shapes: []Shape{{Kind: "box", P: [3]float64{12.5, -6.25, 3}, Q: [3]float64{1, 0.5, 0.75}, S: 1}}}))
 
-	for _, d := range throughBlockStream(r) {
-		jobs = append(jobs, newJob("through-block", d))
+	thorough := run.Tier == "thorough"
+	// quick keeps one representative per class, rotating with the seed; thorough runs the full streams
+	for i, d := range throughBlockStream(r) {
+		// 0..8: per axis beam, beam, capsule; 9: diagonal capsule (nine blocks)
+		if thorough || (i < 9 && i%3 == (i/3+int(run.Seed))%3) {
+			jobs = append(jobs, newJob("through-block", d))
+		}
 	}
-	for _, d := range blockPlaneStream(r) {
-		jobs = append(jobs, newJob("block-plane", d))
+	for i, d := range blockPlaneStream(r) {
+		if thorough || i%2 == int(run.Seed)%2 {
+			jobs = append(jobs, newJob("block-plane", d))
+		}
 	}
-	for _, d := range unionStream(r, run.Tier == "thorough") {
+	for _, d := range unionStream(r, thorough, int(run.Seed)) {
 		jobs = append(jobs, newJob("union", d))
 	}
-	for _, d := range constructorStream(r, run.Tier == "thorough", smallDomains) {
+	for _, d := range constructorStream(r, thorough, smallDomains, int(run.Seed)) {
 		jobs = append(jobs, newJob("constructor", d))
 	}
 
-	nBig, nFinding := 2, 4
+	nBig, nFinding := 2, 3
 	if run.Tier == "thorough" {
 		nBig, nFinding = 16, 24
 	}
